@@ -122,15 +122,15 @@ pub fn streams() -> Vec<Box<dyn AnyStream>> {
     vec![
         Box::new(Stream::<SCase> {
             name: "strings",
-            quick: 40_000,
-            thorough: 2_000_000,
+            quick: 50_000,
+            thorough: 3_000_000,
             source: Source::Gen(Box::new(strategy_strings)),
             check: Box::new(check_string),
         }),
         Box::new(Stream::<VCase> {
             name: "values",
-            quick: 25_000,
-            thorough: 1_000_000,
+            quick: 30_000,
+            thorough: 2_000_000,
             source: Source::Gen(Box::new(strategy_values)),
             check: Box::new(check_value),
         }),
